@@ -533,14 +533,29 @@ func (w *World) applyPartial(n *Node, b *Block) {
 		if usePartial {
 			w.partialFetchVerify(n, b.Pre, b.Dels, b.Proof.Targets, true)
 		} else {
+			// a seeded quarter of the blocks is verified without remembering and then
+			// handed to Ingest (the unverified way in), as a caller that verifies
+			// elsewhere does
+			viaIngest := SubRng(b.Seed^uint64(n.idx), "via-ingest").Pct(25)
 			g := w.fp.begin("Verify", bDels, bProof.Targets, bProof.Proof)
-			err, _ := guard(func() error { return n.mp.Verify(bDels, bProof, true) })
+			err, _ := guard(func() error { return n.mp.Verify(bDels, bProof, !viaIngest) })
 			g.end()
 			w.count("verify_honest")
 			if err != nil {
 				w.blame(n, "verify-honest", "partial forest rejected an honest block proof: "+err.Error())
 				n.tainted = true
 				return
+			}
+			if viaIngest {
+				w.stats.Reach["block_via_ingest"]++
+				g := w.fp.begin("Ingest", bDels, bProof.Targets, bProof.Proof)
+				err, _ := guard(func() error { return n.mp.Ingest(bDels, bProof) })
+				g.end()
+				if err != nil {
+					w.blame(n, "apply-err", fmt.Sprintf("Ingest of the honest proof of block %d failed: %v", b.ID, err))
+					n.tainted = true
+					return
+				}
 			}
 		}
 		for _, d := range b.Dels {
